@@ -202,6 +202,18 @@ def build(ctx):
             bad = [v.args[0] for v in tm.free_vars(inv_dx2) if v.args[0] != "nx"] + [a.args[0] for a in tm.apps(inv_dx2)]
             if bad:
                 return be.Verdict(be.REFUTED, "SMT", witness={}, detail=f"the mesh constant depends on {bad}: not one constant for the whole run")
+            # the node count may be a fixed-width numpy integer (np.int16 / np.int32 scalars keep their width in integer
+            # arithmetic and wrap around): every integer-valued sub-expression of the mesh constant has to stay inside
+            # the type for every node count the type can hold
+            for nd in tm.postorder(inv_dx2):
+                if nd.sort == tm.I and nd.op in ("*", "ipow", "+", "neg") and any(v.args[0] == "nx" for v in tm.free_vars(nd)):
+                    for bits in (16, 32):
+                        top = tm.const(2 ** (bits - 1) - 1)
+                        vv = be.prove_smt(tm.land(tm.le(tm.neg(top), nd), tm.le(nd, top)), [tm.le(tm.const(3), S.n), tm.le(S.n, top)], want={"nx": S.n, "value": nd})
+                        if vv.status == be.REFUTED:
+                            vv.detail = f"integer arithmetic on the node count overflows for a numpy int{bits} nx (the sub-expression {nd} leaves the type; numpy wraps around and the mesh constant changes sign or size): " + vv.detail
+                            vv.witness = dict(vv.witness or {}, nx_type=f"int{bits}")
+                            return with_models(vv, S.o)
             if cls == "IdealReservoir":
                 spec = (ti1 - ti) * inv_dx2
                 hyp = []
@@ -213,7 +225,31 @@ def build(ctx):
             v = be.prove_smt(tm.implies(resv.inr(j, S.n), tm.land(tm.eq(kj, spec), tm.gt(inv_dx2, tm.rconst(0)))), hyp + list(S.o.pc), want={"j": j, "dt": ti1 - ti, "nx": S.n})
             return with_models(v, S.o)
 
-        obs.append(Obligation(f"{tag}.step.mesh_ratio", f"{cls}: kt_h2[j] == (t[i+1] - t[i]) * C(nx) * alpha_s(previous level at j) with one positive mesh constant C(nx) for the whole run (frac-face node: diffusivity at m_f[i])", mesh, fq, "SMT", lambda w: real_step_check()))
+        def mesh_replay(w, cls=cls):
+            import numpy as np
+            nxw = w.get("nx") if isinstance(w, dict) else None
+            cands = []
+            if isinstance(nxw, (int, float)) and w.get("nx_type") in ("int16", "int32") and 3 <= int(nxw) <= 20000:
+                cands.append(getattr(np, w["nx_type"])(int(nxw)))
+            cands += [np.int16(200), np.int16(182), np.int32(300)]
+            from ..rt import c01 as rt1
+            flow = __import__("bluebonnet.flow", fromlist=["x"])
+            for nxv in cands:
+                t_ = np.linspace(0.0, 1.0, 6) ** 2
+                if cls == "IdealReservoir":
+                    a, b_ = flow.IdealReservoir(nxv, 1000.0, 8000.0, None), flow.IdealReservoir(int(nxv), 1000.0, 8000.0, None)
+                else:
+                    fl = rt1.make_fluid("gas")
+                    a, b_ = flow.SinglePhaseReservoir(nxv, 1000.0, 8000.0, fl), flow.SinglePhaseReservoir(int(nxv), 1000.0, 8000.0, fl)
+                with np.errstate(all="ignore"):
+                    a.simulate(t_)
+                    b_.simulate(t_)
+                if not np.allclose(a.pseudopressure, b_.pseudopressure, rtol=1e-12, atol=0):
+                    return {"reproduced": True, "input": {"class": cls, "nx": f"{type(nxv).__name__}({int(nxv)})", "time": t_.tolist()}, "observed": {"min": float(np.min(a.pseudopressure)), "max": float(np.max(a.pseudopressure))},
+                            "required": "the field of the same run with nx = int(%d): min %.6g, max %.6g" % (int(nxv), float(np.min(b_.pseudopressure)), float(np.max(b_.pseudopressure)))}
+            return real_step_check()
+
+        obs.append(Obligation(f"{tag}.step.mesh_ratio", f"{cls}: kt_h2[j] == (t[i+1] - t[i]) * C(nx) * alpha_s(previous level at j) with one positive mesh constant C(nx) for the whole run (frac-face node: diffusivity at m_f[i]); C(nx) involves no integer arithmetic that a fixed-width numpy node count could overflow", mesh, fq, "SMT", mesh_replay))
 
         def rows(cls=cls, mkstep=mkstep):
             S = mkstep()
